@@ -32,6 +32,7 @@ def loads_in(t, acc):
 
 def run(rep, tier):
     cx = Ctx(rep, "std")
+    rep.where_by_opcode = cx.opcode_where(cx.roles.interpreter())
     im = imodel.InterpModel(cx)
     if not im.ok or im.bc is None:
         return
